@@ -282,8 +282,10 @@ class CoreMixin:
         if k == "any":
             self.ctx.fun("truthy", [U], BOOL)
             return smt.app("truthy", BOOL, v.ts[0])
-        if k == "func":
+        if k in ("func", "match", "regex"):
             return smt.TRUE
+        if k == "optmatch":
+            return smt.Not(v.ts[0])
         raise Unsupported("truthiness of %r" % (v.ty,))
 
     # -- obligations -------------------------------------------------------
